@@ -435,6 +435,33 @@ func runHashCorrespondence(f lib.Flags, res *lib.Result, drv *lib.Driver, r *lib
 		}
 	}
 
+	// VerifyTransactions on the transaction variants whose hash juno does not recompute (the model's
+	// verdict needs no hash evaluation for them): ties the model's `strictTxKinds` switch to the code
+	v0 := func(n uint64) *core.TransactionVersion { return new(core.TransactionVersion).SetUint64(n) }
+	unverifiable := map[string]core.Transaction{
+		"declare-v0": &core.DeclareTransaction{TransactionHash: lib.F(0x77), ClassHash: lib.F(1), SenderAddress: lib.F(2), MaxFee: lib.F(3),
+			Nonce: lib.F(0), Version: v0(0), TransactionSignature: []felt.Felt{}},
+		"l1handler-no-nonce": &core.L1HandlerTransaction{TransactionHash: lib.F(0x78), ContractAddress: lib.F(1), EntryPointSelector: lib.F(2),
+			CallData: []felt.Felt{*lib.F(5)}, Version: v0(0)},
+		"legacy-deploy": &core.DeployTransaction{TransactionHash: lib.F(0x79), ContractAddressSalt: lib.F(1), ContractAddress: lib.F(2),
+			ClassHash: lib.F(3), ConstructorCallData: []felt.Felt{}, Version: v0(0)},
+	}
+	for name, tx := range unverifiable {
+		for _, ver := range []string{"0.10.9", "0.11.0", "0.12.3", "0.13.1", "0.13.2", "0.13.3", "0.13.4", "0.14.1"} {
+			var w wbuf
+			w.tok("vtx")
+			w.net(net)
+			w.bytes([]byte(ver))
+			w.u64(1)
+			w.tx(tx)
+			impl := "true"
+			if core.VerifyTransactions([]core.Transaction{tx}, net, ver) != nil {
+				impl = "false"
+			}
+			add(corrCase{"vtx", w.String(), impl, "VerifyTransactions " + name + " in " + ver})
+		}
+	}
+
 	lines := make([]string, len(cases))
 	for i, c := range cases {
 		lines[i] = c.line
